@@ -239,6 +239,11 @@ def nameAt (es : List Entry) (i : Nat) : Bytes := (es[i]?.map (·.name)).getD []
 def streq (xhtml : Bool) (a b : Bytes) : Bool :=
   if xhtml then a == b else a.map toLower == b.map toLower
 
+/-- Invariant of every `rules` object in HTML mode: tags live in a map ordered by `icompare_c_string`, so two
+names that `ascii_streq(…, xhtml=false)` identifies are the same key and have the same kind
+(`mkRules_htmlCaseOk` in Lemmas shows it for the rule sets the `add_*` calls build). -/
+def HtmlCaseOk (r : Rules) : Prop := ∀ a b : Bytes, streq false a b = true → r.tagKind a = r.tagKind b
+
 /-- HTML mode: the `for(;;)` that pops until a matching open tag is found -/
 def popUntil (es : List Entry) (i : Nat) (cur : Bytes) : List Nat → List Entry × List Nat
   | [] => (setTy es i .invalid, [])
